@@ -163,11 +163,10 @@ def generate(rng, tier):
 
 
 def _args(coords, data, weights):
-    cs = tuple(np.array(c) for c in coords)
-    ds = tuple(np.array(d) for d in data)
-    ws = None if weights is None else tuple(np.array(w) for w in weights)
-    for a in cs + ds + (ws or ()):
-        a.setflags(write=False)
+    key = repr(data[0][:3])
+    cs = tuple(C.mkarr(c, [len(c)], f"{key}c{i}") for i, c in enumerate(coords))
+    ds = tuple(C.mkarr(d, [len(d)], f"{key}d{i}") for i, d in enumerate(data))
+    ws = None if weights is None else tuple(C.mkarr(w, [len(w)], f"{key}w{i}") for i, w in enumerate(weights))
     return cs, (ds[0] if len(ds) == 1 else ds), (None if ws is None else (ws[0] if len(ws) == 1 else ws))
 
 
